@@ -20,11 +20,14 @@
 (* Close hooks (IteratorWithHook): Uniq and DropZeroValues add the Close() error  *)
 (* of their input to their own collector when they are closed.                    *)
 (*                                                                               *)
-(* JoinFix selects the code as it is (FALSE) or with                              *)
-(* fixes/iterator-concat-stops-on-error.diff (TRUE): Filter and Transform.Process *)
-(* get the same close hook, and Iterator.Join reads its operands with             *)
-(* readOrFail (an operand that ended with a collected error yields that error     *)
-(* instead of io.EOF, which Producer.Join makes sticky).                          *)
+(* JoinFix selects the code as pinned (FALSE) or as repaired by /repo 0350f9b +   *)
+(* fb02575 (TRUE): Iterator.Join reads its operands with readOrFail (an operand   *)
+(* that ended with a collected error yields that error instead of io.EOF, which   *)
+(* Producer.Join makes sticky), and Filter / Transform.Process (hence Indexed,     *)
+(* ConvertIterator) read their source with readOrFail too, so that the failure    *)
+(* travels down the pipeline as an error and a producer joined onto the derived   *)
+(* iterator (UnmarshalJSON) sees it; itertool.Uniq / DropZeroValues return their  *)
+(* input's Close() error at io.EOF likewise (they keep their close hooks).        *)
 (*   Op_fixed.cfg   JoinFix = TRUE : OpEqDen, Terminal, Reported hold             *)
 (*   Op_asis.cfg    JoinFix = FALSE: only OpInNSet holds (the output is one of    *)
 (*                  the "concat went on after a failed operand" outputs), and     *)
@@ -52,7 +55,9 @@ Ret(res, v, e, st) == [res |-> res, v |-> v, e |-> e, st |-> st]
 Eof(st) == Ret("eof", 0, "", st)
 
 \* which iterators add their input's Close() error to their own collector when they are closed
-HookOps == {"uniq", "dropzero"} \cup (IF JoinFix THEN {"filter", "map", "convert", "indexed"} ELSE {})
+HookOps == {"uniq", "dropzero"}
+\* which iterators read their input with readOrFail (fb02575)
+RofOps == IF JoinFix THEN {"filter", "map", "convert", "indexed", "uniq", "dropzero"} ELSE {}
 
 RECURSIVE CloseIt(_, _)
 \* doClose (once) + what Close() then returns is st.errs
@@ -112,7 +117,10 @@ FaultAt(x, i) == IF x.fault # "none" /\ i = x.k THEN x.fault ELSE "none"
 
 \* the producer of each kind of node
 Op(x, st, p) ==
-  LET in1 == ReadOne(x.kids[1], st.kids[1], Child(p, 1))         \* evaluated only for unary nodes
+  LET rd1 == ReadOne(x.kids[1], st.kids[1], Child(p, 1))         \* evaluated only for unary nodes
+      \* readOrFail: at io.EOF the source's collected error (its Close()) is returned instead
+      in1 == IF x.op \in RofOps /\ rd1.res = "eof" /\ rd1.st.errs # {}
+               THEN Ret("err", 0, CHOOSE e \in rd1.st.errs : TRUE, rd1.st) ELSE rd1
       st1 == [st EXCEPT !.kids[1] = in1.st] IN
   CASE x.op \in {"slice", "variadic", "chan", "list"} ->
          IF st.cur >= Len(x.data) THEN Eof(st)
@@ -126,19 +134,24 @@ Op(x, st, p) ==
                  [] f = "eof"  -> Eof(s2))
     [] x.op = "filter" ->
          IF in1.res = "eof" THEN Eof(st1)
+         ELSE IF in1.res = "err" THEN Ret("err", 0, in1.e, st1)
          ELSE IF P(x.fn, in1.v) THEN Ret("val", in1.v, "", st1) ELSE Op(x, st1, p)
     [] x.op = "dropzero" ->
          IF in1.res = "eof" THEN Eof(st1)
+         ELSE IF in1.res = "err" THEN Ret("err", 0, in1.e, st1)
          ELSE IF in1.v # 0 THEN Ret("val", in1.v, "", st1) ELSE Op(x, st1, p)
     [] x.op = "uniq" ->
          IF in1.res = "eof" THEN Eof(st1)
+         ELSE IF in1.res = "err" THEN Ret("err", 0, in1.e, st1)
          ELSE IF in1.v \in st1.seen THEN Op(x, st1, p)
               ELSE Ret("val", in1.v, "", [st1 EXCEPT !.seen = @ \cup {in1.v}])
     [] x.op = "indexed" ->
          IF in1.res = "eof" THEN Eof(st1)
+         ELSE IF in1.res = "err" THEN Ret("err", 0, in1.e, st1)
          ELSE Ret("val", 10 * st1.cur + in1.v, "", [st1 EXCEPT !.cur = @ + 1])
     [] x.op \in {"map", "convert"} ->                              \* Transform.Producer: for { prod; mpf; switch }
          IF in1.res = "eof" THEN Eof(st1)
+         ELSE IF in1.res = "err" THEN Ret("err", 0, in1.e, st1)    \* default: return zero, err
          ELSE LET fm == FaultAt(x, st1.cur)  sm == [st1 EXCEPT !.cur = @ + 1] IN
               (CASE fm = "none" -> Ret("val", F(x.fn, in1.v), "", sm)
                  [] fm = "skip" -> Op(x, sm, p)                      \* errors.Is(err, ErrIteratorSkip): continue
@@ -183,8 +196,9 @@ TerminalOf(x) == InSubset(x) => LET d == Run(x) IN d.ended /\ ReadOne(x, d.st, "
 \* with the fix the error that cut the sequence is reported by Close() of the outermost iterator
 ReportedOf(x) == InSubset(x) => LET d == Run(x)  e == Den(x) IN e.err # "" => e.err \in d.st.errs
 
-\* with the fix UnmarshalJSON still goes on when the failure happened below the iterator's own producer
-NoUnjson(x) == ~(\E r \in NSet(x, "r") : "unjson" \in r.div)
+\* with the fix UnmarshalJSON (like Join and Chain) still goes on when the failure is hidden behind a channel /
+\* eager conversion; none of those operators is in OpOps, so inside this machine nothing is excused
+NoUnjson(x) == TRUE
 
 \* behaviour emission: the term with the functional expectations AND the operational machine's output and
 \* Close() error set, so that the replay also tells whether this machine still describes the code
